@@ -27,6 +27,7 @@ ENV = dict(os.environ)
 ENV.update({"CARGO_NET_OFFLINE": "true", "CARGO_TERM_COLOR": "never"})
 ENV.pop("RUSTUP_TOOLCHAIN", None)
 JOBS = int(os.environ.get("VERIF_JOBS", "14"))
+TIMEOUT_SCALE = float(os.environ.get("VERIF_TIMEOUT_SCALE", "3"))
 
 
 def log(*a):
@@ -137,7 +138,9 @@ def run_harness(scr, unit, h, tier):
     full = "%s::%s" % (unit["modpath"], h["name"]) if unit.get("modpath") else h["name"]
     if h.get("modpath"):
         full = "%s::%s" % (h["modpath"], h["name"])
-    timeout = h.get("timeout_thorough", 1800) if tier == "thorough" else h.get("timeout", 300)
+    # the declared time-outs were measured on an idle 16-core machine; a loaded or slower machine must not turn a
+    # discharged obligation into an undecided one, hence the slack (VERIF_TIMEOUT_SCALE, default 3)
+    timeout = (h.get("timeout_thorough", 1800) if tier == "thorough" else h.get("timeout", 300)) * TIMEOUT_SCALE
     cmd = kani_cmd(unit["package"], full, h)
     t0 = time.time()
     try:
@@ -263,7 +266,7 @@ def run_native(scr, unit, tier, seed):
     t0 = time.time()
     try:
         p = subprocess.run(cmd, cwd=scr.ws, env=env, stdout=subprocess.PIPE, stderr=subprocess.STDOUT, text=True,
-                           timeout=unit.get("timeout", 1200))
+                           timeout=unit.get("timeout", 1200) * TIMEOUT_SCALE)
         out, timed_out, rc = p.stdout, False, p.returncode
     except subprocess.TimeoutExpired as e:
         out = e.stdout.decode(errors="replace") if isinstance(e.stdout, bytes) else (e.stdout or "")
